@@ -304,7 +304,7 @@ var props = map[string]*propConfig{
 		Harness: "h5", Level: "exploration",
 		Families:    []family{{Name: "store-histories", Flags: map[string]string{"family": "store"}, Quick: 8000, Thorough: 2400000}},
 		QuickBudget: 100 * time.Second, ThoroughBudget: 10 * time.Minute, Chunk: 100,
-		Rule:        "one run = a history of 4..19 write / overwrite / read / prefix-list operations on the real FSBucket against a map object store, over names of nested ordinary components and the object names the upload (week/%g-of-X.json incl. extreme floats), merge (date.json) and chart (date.json, start_end.json) services construct; names that are a path prefix of another stored name are not generated; every constructed name must resolve under the bucket directory and a sibling bucket must stay untouched; names get suffix siblings (.tmp, .bak, ~, .lock), one write in five is listed before it is closed, listings may overlap; explicit overwrites with shorter, empty or much longer content; a sibling bucket whose name extends this bucket's; the handle is re-created in mid-history; one write in six (once something is stored) is storage.Copy from a stored object to a generated name: the model gives the destination the source's bytes of that moment, later overwrites of either are not read from the other",
+		Rule:        "one run = a history of 4..19 write / overwrite / read / prefix-list operations on the real FSBucket against a map object store, over names of nested ordinary components and the object names the upload (week/%g-of-X.json incl. extreme floats), merge (date.json) and chart (date.json, start_end.json) services construct; names that are a path prefix of another stored name are not generated; every constructed name must resolve under the bucket directory and a sibling bucket must stay untouched; names get suffix siblings (.tmp, .bak, ~, .lock), one write in five is listed before it is closed, listings may overlap; explicit overwrites with shorter, empty or much longer content; a sibling bucket whose name extends this bucket's; the handle is re-created in mid-history; one write in six (once something is stored) is storage.Copy from a stored object to a generated name: the model gives the destination the source's bytes of that moment, later overwrites of either are not read from the other; one copy in four to a name never stored is from an object that is not there: it must fail, and the name it was to be copied to still reads not-exist",
 		Real:        []string{"godev/internal/storage FSBucket, FSObject, FSObjectIterator", "Linux tmpfs"},
 		Stub:        []string{"GCS backend not run"},
 		Assumptions: []string{"input-heavy property: claimed for the history part (sequences of operations against a model)"},
